@@ -166,6 +166,30 @@ func (h *_refHolder) add(dest reflect.Value) {
 	h.destinations = append(h.destinations, dest)
 }
 
+// itemValue unpack a decoded element or map value that is stored into a typed container.
+// A complete list that has to be converted to typ is converted once and kept in its ref holder,
+// so that n references to one list cost one conversion, not n
+func itemValue(item interface{}, typ reflect.Type) reflect.Value {
+	var h *_refHolder
+	switch it := item.(type) {
+	case *_refHolder:
+		h = it
+	case reflect.Value:
+		if it.IsValid() && it.CanInterface() {
+			h, _ = it.Interface().(*_refHolder)
+		}
+	}
+	if h == nil || !h.complete || typ.Kind() != reflect.Slice || h.value.Type() == typ {
+		return EnsureRawValue(item)
+	}
+	cv, err := convertValue(h.value, typ)
+	if err != nil {
+		return EnsureRawValue(item)
+	}
+	h.value = cv
+	return cv
+}
+
 func (d *Decoder) addDecoderRef(v reflect.Value) *_refHolder {
 	// fmt.Printf("--> addDecoderRef: %d, %p, %v, %v\n", len(d.refList), v.Interface(), v.Type(), v.Interface())
 	var holder *_refHolder
